@@ -495,7 +495,17 @@ def r3_well_formed(ctx: Context, rule: str = "C10.R3") -> None:
                 mk = [a for a in ast.walk(init) if isinstance(a, ast.Assign) and isinstance(a.value, ast.DictComp) and is_self_attr(a.targets[0], "_space_time_strategy_matrix")]
                 ok_s = ok_s and bool(mk) and any("available_execution_strategies" in norm(g.iter) for g in mk[0].value.generators)
             ctx.check(ok_s, rule, key + " strategy", loc(c), f"`{st}` ranges over the task's own strategies", f"strategy `{st}` is not drawn from the task's own strategy list")
-            ok_t = "start_time" in pt
+            if isinstance(kw.get("placement_time"), ast.Name):
+                # a local filled in by the search loop (initialised to None for the case that nothing was chosen): its bindings
+                tdefs = [a.value for a in ast.walk(gp) if isinstance(a, ast.Assign) and any(norm(t) == pt for t in a.targets)
+                         and not (isinstance(a.value, ast.Constant) and a.value.value is None)]
+                if tdefs:
+                    pt = " | ".join(norm(v) for v in tdefs)
+                    ok_t = all("start_time" in norm(v) for v in tdefs)
+                else:
+                    ok_t = "start_time" in pt
+            else:
+                ok_t = "start_time" in pt
             ctx.check(ok_t, rule, key + " time", loc(c), pt[:60], f"placement time `{pt[:60]}` is not a model start value")
     # Z3: pool from the worker map, time from the start variable
     z = ctx.repo.mod("schedulers/z3_scheduler.py")
